@@ -7,12 +7,14 @@ Every one of these functions is therefore matched against its expected text (doc
 comments aside, compared through a hash of ast.unparse); anything else is a ShapeError
 (fail-closed: the check then reports the broken tie and searches for a failing input).
 
-Three defects have two recognised shapes each, selected by a boolean the model takes as a parameter:
+Four defects have two recognised shapes each, selected by a boolean the model takes as a parameter:
 
   c09_power_returns_kind   false <-> KindInferenceMapper.map_power has no return statement
                            true  <-> ... ends with `return self.map_product_like((expr.base, expr.exponent))`
   c09_new_entry_marks      false <-> SymbolKindTable.set: `else: tbl[name] = kind`
-                           true  <-> ... `else: tbl[name] = kind; self._changed = True`
+                           true  <-> ... `else: self._changed = True; tbl[name] = kind` (either order)
+  c09_conflict_raises      false <-> SymbolKindTable.set: `except Exception: print(...)`
+                           true  <-> ... `except Exception: print(...); raise`
   c09_isnan_any            false <-> builtin_isnan: `return np.isnan(x)`
                            true  <-> ... `return np.isnan(x).any()`
 
@@ -46,7 +48,8 @@ MAP_POWER_OLD = ("if self.check and (not isinstance(self.rec(expr.exponent), Sca
                  "    raise TypeError(\"exponentiation by '%s'is meaningless\" % type(self.rec(expr.exponent)).__name__)")
 MAP_POWER_NEW = MAP_POWER_OLD + "\nreturn self.map_product_like((expr.base, expr.exponent))"
 
-SET_HEAD = ("if is_state_variable(name):\n"
+def _set_text(raises, marks):
+    return ("if is_state_variable(name):\n"
             "    tbl = self.global_table\n"
             "else:\n"
             "    tbl = self.per_phase_table.setdefault(phase_name, {})\n"
@@ -57,14 +60,17 @@ SET_HEAD = ("if is_state_variable(name):\n"
             "        except Exception:\n"
             "            print(\"trying to derive 'kind' for '%s' in '%s': '%s' vs '%s'\" % "
             "(name, phase_name, repr(kind), repr(tbl[name])))\n"
+            + ("            raise\n" if raises else "") +
             "        else:\n"
             "            if tbl[name] != kind:\n"
             "                self._changed = True\n"
             "                tbl[name] = kind\n"
             "else:\n"
-            "    tbl[name] = kind")
-SET_OLD = SET_HEAD
-SET_NEW = SET_HEAD + "\n    self._changed = True"
+            + {0: "    tbl[name] = kind", 1: "    self._changed = True\n    tbl[name] = kind",
+               2: "    tbl[name] = kind\n    self._changed = True"}[marks])
+
+
+SET_SHAPES = {_set_text(r, m): (r, m != 0) for r in (False, True) for m in (0, 1, 2)}
 
 ISNAN_OLD = "import numpy as np\nreturn np.isnan(x)"
 ISNAN_NEW = "import numpy as np\nreturn np.isnan(x).any()"
@@ -98,12 +104,12 @@ EXPECT = {
     ('dagrt/data.py', 'KindInferenceMapper', 'map_subscript'): '5eaff6223543074c',
     ('dagrt/data.py', 'KindInferenceMapper', 'map_sum'): 'fd496905173f0f3a',
     ('dagrt/data.py', 'KindInferenceMapper', 'map_variable'): '58636ea46ce8b293',
-    ('dagrt/data.py', 'SymbolKindFinder', '__call__'): 'd67924ea277ef93e',
+    ('dagrt/data.py', 'SymbolKindFinder', '__call__'): '98a5aea11a4e5e1e',
     ('dagrt/data.py', 'SymbolKindTable', '__init__'): '435c0f5a366c9bbc',
     ('dagrt/data.py', 'SymbolKindTable', 'is_changed'): '0444078db550a0fa',
     ('dagrt/data.py', 'SymbolKindTable', 'reset_change_flag'): '2038eccb5f7690fa',
     ('dagrt/data.py', None, '_get_arg_dict_from_call_stmt'): '37b52e19252e3566',
-    ('dagrt/data.py', None, 'unify'): '856096e25d2d8fd9',
+    ('dagrt/data.py', None, 'unify'): '137384b46d07ae64',
     ('dagrt/exec_numpy.py', 'NumpyInterpreter', 'exec_AssignFunctionCall'): '8a583373188fe1d3',
     ('dagrt/function_registry.py', 'Array_', 'get_result_kinds'): '33f91c21d348965e',
     ('dagrt/function_registry.py', 'DotProduct', 'get_result_kinds'): '54f572879cf6e102',
@@ -232,12 +238,9 @@ def switches(repo):
     else:
         raise ShapeError("data.py KindInferenceMapper.map_power: unrecognised body:\n" + mp)
     st = _body_src(_find_def(_find_class(data, "SymbolKindTable"), "set"))
-    if st == SET_OLD:
-        marks = False
-    elif st == SET_NEW:
-        marks = True
-    else:
+    if st not in SET_SHAPES:
         raise ShapeError("data.py SymbolKindTable.set: unrecognised body:\n" + st)
+    raises, marks = SET_SHAPES[st]
     bp = _parse(repo, "dagrt/builtins_python.py")
     isn = _body_src(_find_def(bp, "builtin_isnan"))
     if isn == ISNAN_OLD:
@@ -246,7 +249,7 @@ def switches(repo):
         isnan_any = True
     else:
         raise ShapeError("builtins_python.py builtin_isnan: unrecognised body:\n" + isn)
-    return power, marks, isnan_any
+    return power, marks, isnan_any, raises
 
 
 def generate(repo):
@@ -269,12 +272,13 @@ def generate(repo):
                          % (sorted(methods), sorted(MAPPER_METHODS)))
     if [_src(b) for b in kim.bases] != ["Mapper"]:
         raise ShapeError("data.py KindInferenceMapper: unexpected bases")
-    power, marks, isnan_any = switches(repo)
+    power, marks, isnan_any, raises = switches(repo)
     out.append("(* dagrt/data.py KindInferenceMapper.map_power / SymbolKindTable.set; "
                "dagrt/builtins_python.py builtin_isnan *)")
     out.append("Definition c09_power_returns_kind : bool := %s." % coq_bool(power))
     out.append("Definition c09_new_entry_marks : bool := %s." % coq_bool(marks))
     out.append("Definition c09_isnan_any : bool := %s." % coq_bool(isnan_any))
+    out.append("Definition c09_conflict_raises : bool := %s." % coq_bool(raises))
     exact, prefixes, ie, ip = state_facts(repo)
     out.append("Definition c09_state_exact : list string := %s." % coq_string_list(exact))
     out.append("Definition c09_state_prefixes : list string := %s." % coq_string_list(prefixes))
